@@ -241,7 +241,7 @@ def make_case(prop, seed, i, tier):
     rng = rng_for(prop, seed, i)
     if i % 2 == 0:
         return dict(prop=prop, i=i, kind="direct", seed=rng.randrange(10 ** 9), n_calls=40)
-    if i % 8 == 3:
+    if i % 8 in (3, 7):
         return dict(prop=prop, i=i, kind="sim", spec=gen_returning_worker(rng), family="returning-worker")
     spec = G.gen_random(rng, G.profile(facility_rich=rng.random() < 0.45, min_tasks=3, ensure_worker=0.9))
     # contention: many tasks share few workers
@@ -287,8 +287,20 @@ def direct_calls(case, res):
                             t.est, t.lst = rng.choice(vals), rng.choice(vals)
                             t.default_work_amount = rng.choice(vals)
                             t.remaining_work_amount = rng.choice(vals)
-                        if rng.random() < 0.6:
-                            t.state_record_list.extend(rng.choice([TS.NONE, TS.READY, TS.WORKING]) for _ in range(rng.randint(1, 3)))
+                        r_ = rng.random()
+                        sts = [TS.NONE, TS.READY, TS.WORKING]
+                        if r_ < 0.25:
+                            t.state_record_list.extend(rng.choice(sts) for _ in range(rng.randint(1, 3)))
+                        elif r_ < 0.5:
+                            # a new log, as initialize() + a new run leave it (not shorter than the old one)
+                            t.state_record_list = [rng.choice(sts) for _ in range(len(t.state_record_list) + rng.randint(0, 2))]
+                        elif r_ < 0.7 and t.state_record_list:
+                            for _k in range(rng.randint(1, 3)):       # entries overwritten / inserted in place (absence edits)
+                                t.state_record_list[rng.randrange(len(t.state_record_list))] = rng.choice(sts)
+                            if rng.random() < 0.5:
+                                t.state_record_list.insert(rng.randrange(len(t.state_record_list)), rng.choice(sts))
+                        elif r_ < 0.8:
+                            t.state_record_list.reverse()
                 for rule in TR:
                     inp = list(ts)
                     rng.shuffle(inp)
